@@ -45,6 +45,10 @@ func c15AttachSites() []c15AttachSite {
 		{Name: "method-doc-pointer-receiver", Obj: "Mt", Role: "method", Recv: "A", Src: h + "type A struct{ F int }\n\n{C}\nfunc (a *A) Mt() {}\n"},
 		{Name: "field-doc-of-immutable-struct", Obj: "A", Role: "field", Fixed: []string{"immutable@A"},
 			Src: h + "// @immutable\ntype A struct {\n\t{C}\n\tF int\n}\n"},
+		{Name: "multi-name-field-doc-of-immutable-struct", Obj: "A", Role: "fields", Fixed: []string{"immutable@A"},
+			Src: h + "// @immutable\ntype A struct {\n\tE int\n\t{C}\n\tF, G int\n\tH int\n}\n"},
+		{Name: "second-field-doc-of-immutable-struct", Obj: "A", Role: "field", Fixed: []string{"immutable@A"},
+			Src: h + "// @immutable\ntype A struct {\n\t// E is plain.\n\tE int\n\t{C}\n\tF int\n\tG int\n}\n"},
 		{Name: "field-doc-of-plain-struct", Src: h + "type A struct {\n\t{C}\n\tF int\n}\n"},
 		{Name: "embedded-field-doc-of-immutable-struct", Fixed: []string{"immutable@A"},
 			Src: h + "type E struct{}\n\n// @immutable\ntype A struct {\n\t{C}\n\tE\n\tF int\n}\n"},
@@ -99,6 +103,10 @@ func c15AttachWant(s c15AttachSite, kw string, commentLine int) []string {
 	case "field":
 		if kw == "mutable" {
 			w = append(w, "mutable@"+s.Obj+".F")
+		}
+	case "fields": // one doc comment over several names marks every one of them
+		if kw == "mutable" {
+			w = append(w, "mutable@"+s.Obj+".F", "mutable@"+s.Obj+".G")
 		}
 	}
 	sort.Strings(w)
